@@ -1,23 +1,59 @@
 from props import *  # noqa: F401,F403
 
 # ------------------------------------------------------------------------------------------------
-# part 1: names and units (validator variants, byte-level fuzzing, Meter::Create* end to end)
+# part 1: names and units (both validator variants, byte-level fuzzing, Meter::Create* end to end).
+# c19_noregex_validator.cc compiles the UNMODIFIED sdk/src/metrics/instrument_metadata_validator.cc a
+# second time with OPENTELEMETRY_HAVE_WORKING_REGEX forced to 0 (class renamed), so that the
+# hand-written #else variants - dead code in the pinned configuration - are checked as well.
 _NAMES = ["harness/c19_names.cc", "harness/c19_noregex_validator.cc"]
 rc_bin("c19n_rc", _NAMES, lib=True)
 fuzz_bin("c19n_fuzz", _NAMES, lib=True, repo_srcs=["sdk/src/metrics/instrument_metadata_validator.cc"])
 
+# part 2: views, scope-configurator rules, provider identity
+rc_bin("c19v_rc", ["harness/c19_views_scopes.cc"], lib=True)
+
 PROPS["C19"] = dict(
-    level_text="x",
-    technique="x",
-    rule="x",
-    assumptions=[SC_NOTE],
+    level_text="Differential and model-based property tests over generated inputs and configurations (rapidcheck, "
+               "plus libFuzzer for the (name, unit) bytes; ASan/UBSan): every explored case agreed with a reference "
+               "validator written from the statement, a direct matcher for the view-selector grammar, a first-match "
+               "model of the scope rules and an identity model of the providers, observed through in-harness "
+               "readers/exporters. Exploration is the right level: the domain (all byte strings up to 300, all view / "
+               "rule / request lists) is unbounded, the oracles are cheap and exact, and the defects of this area "
+               "(length and alphabet boundaries, C-string handling, selector combinations, rule order, identity "
+               "components) are boundary/combination defects that breadth of generated cases finds.",
+    technique="differential reference validator + direct pattern matcher + expected-stream-set model + first-match rule "
+              "model + identity model; rapidcheck choice streams, libFuzzer on the byte-level validator target",
+    rule="Cases are choice streams decoded into (name, unit, storage layout) triples, Create* call lists, "
+         "(meters, instruments, views) configurations, (rule list, scope list) configurations and Get* request lists.",
+    assumptions=[
+        "a NUL byte inside a unit is an either-region ('ASCII character' can be read both ways); a NUL inside a name "
+        "is invalid",
+        "name selectors are patterns: '*' alone, '.*' = any sequence, other characters literal; a '.' not followed by "
+        "'*' is an either-region wherever 'any character' and 'literal dot' disagree",
+        "a meter selector version/schema against a meter without version/schema is an either-region (the registry "
+        "skips the filter there on purpose)",
+        "Drop aggregation: either no stream or a stream with only drop points",
+        "LastValue over several measurements of one series: any recorded value is accepted (clock ties)",
+        "one instrument per (meter, name) and attribute keys handed over NUL-terminated: re-registration and "
+        "attribute-key storage are the subject of C06/C08 (findings F8 first shape, F11)",
+        "two view selectors matching one instrument are generated only while finding F8 is not excluded; "
+        "attribute allow-lists on observable instruments only while C19-ASYNC-VIEW-FILTER is not excluded",
+        "ABI v1: no synchronous gauge, no tracer/meter scope attributes (logger scope attributes are covered)",
+        "the non-regex validator variants are compiled from the unmodified source with the macro forced to 0; a "
+        "platform-specific std::regex defect is out of scope",
+        SC_NOTE,
+    ],
     runs=[
-        run("validator", "c19n_rc", "validator", "rc", dict(procs=2, cases=20000), dict(procs=4, cases=200000)),
-        run("validator-noregex", "c19n_rc", "validator_noregex", "rc", dict(procs=1, cases=20000),
-            dict(procs=2, cases=200000)),
-        run("bytes", "c19n_rc", "validator_bytes", "rc", dict(procs=1, cases=5000), dict(procs=2, cases=50000)),
-        run("bytes-fuzz", "c19n_fuzz", "validator_bytes", "fuzz", dict(procs=2, cases=100000, max_len=700),
-            dict(procs=4, cases=2000000, max_len=700), replay_bin="c19n_rc"),
-        run("create-e2e", "c19n_rc", "create_e2e", "rc", dict(procs=3, cases=6000), dict(procs=8, cases=60000)),
+        run("validator", "c19n_rc", "validator", "rc", dict(procs=2, cases=60000), dict(procs=4, cases=600000)),
+        run("validator-noregex", "c19n_rc", "validator_noregex", "rc", dict(procs=1, cases=60000),
+            dict(procs=2, cases=600000)),
+        run("bytes", "c19n_rc", "validator_bytes", "rc", dict(procs=1, cases=10000), dict(procs=1, cases=100000)),
+        run("bytes-fuzz", "c19n_fuzz", "validator_bytes", "fuzz", dict(procs=2, cases=150000, max_len=700),
+            dict(procs=4, cases=2500000, max_len=700), replay_bin="c19n_rc"),
+        run("create-e2e", "c19n_rc", "create_e2e", "rc", dict(procs=2, cases=20000), dict(procs=6, cases=120000)),
+        run("predicate", "c19v_rc", "predicate", "rc", dict(procs=1, cases=60000), dict(procs=2, cases=400000)),
+        run("views", "c19v_rc", "views", "rc", dict(procs=4, cases=15000), dict(procs=8, cases=120000)),
+        run("scope-rules", "c19v_rc", "scope_rules", "rc", dict(procs=2, cases=12000), dict(procs=4, cases=100000)),
+        run("identity", "c19v_rc", "identity", "rc", dict(procs=1, cases=30000), dict(procs=3, cases=200000)),
     ],
 )
